@@ -40,7 +40,7 @@ CLASS_CRASHES = 6       # ... and per input class (len_class) before that class 
 def build(ctx):
     sysinfo_c = L23 + "/src/common/sysinfo.c"
     sysinfo_h = L23 + "/include/osmocom/bb/common/sysinfo.h"
-    fn = cbuild.slice_function(sysinfo_c, r"^int gsm48_decode_mobile_alloc\s*\(")
+    fn = cbuild.slice_with_static_deps(sysinfo_c, [r"^int gsm48_decode_mobile_alloc\s*\("])
     masks = cbuild.slice_lines(sysinfo_h, r"^#define\s+FREQ_TYPE_SERV\b", r"^#define\s+FREQ_TYPE_REP_5ter\b")
     proto = cbuild.slice_lines(sysinfo_h, r"^int gsm48_decode_mobile_alloc\s*\(", r"\)\s*;")
     s = ctx.scratch
@@ -78,8 +78,8 @@ def build_si(ctx):
     for tab in ("gsm48_max_retrans", "gsm48_tx_integer"):
         parts.append("/* sliced from sysinfo.c */\n" +
                      cbuild.slice_lines(sysinfo_c, r"^static const uint8_t %s\[" % tab, r"^\};"))
-    for sig in SI_SLICES:
-        parts.append("/* sliced from sysinfo.c */\n" + cbuild.slice_function(sysinfo_c, sig) + "\n")
+    parts.append("/* sliced from sysinfo.c (with the static helpers they call) */\n" +
+                 cbuild.slice_with_static_deps(sysinfo_c, SI_SLICES, provided=("gsm48_decode_si1_rest", "gsm48_decode_si4_rest")) + "\n")
     with open(s + "/sysinfo_ma_slice.c", "w") as f:
         f.write("\n".join(parts))
     exe = s + "/drv_sysinfo_ma"
